@@ -193,7 +193,7 @@ pub fn run_loop(
     let cfg = input_cfg_for(prop, cr.max_len, g);
     let seed = seed_bytes(cr.seed, g.ghash, fnv64(rule.as_bytes()) ^ fnv64(prop.as_bytes()));
     let mut runner = TestRunner::new_with_rng(
-        Config { cases, failure_persistence: None, max_shrink_iters: 4000, max_global_rejects: 10, ..Config::default() },
+        Config { cases, failure_persistence: None, max_shrink_iters: 800, max_global_rejects: 10, ..Config::default() },
         TestRng::from_seed(RngAlgorithm::ChaCha, &seed),
     );
     let strat = proptest::collection::vec(any::<u8>(), 0..160);
@@ -308,12 +308,17 @@ fn run(table: &'static [GrammarEntry], args: &Args, by_id: &HashMap<String, Mode
     match args.prop.as_str() {
         "C05" | "C06" | "C07" | "C13" | "C16" | "C20" => crate::special::run(table, &ctxs, &cr, &mut partial),
         _ => {
-            for (ti, g) in &ctxs {
+            'all: for (ti, g) in &ctxs {
                 for e in table[*ti].rules {
                     if args.only_rule.as_deref().map_or(false, |r| r != e.rule) {
                         continue;
                     }
                     run_rule(&cr, g, e, &mut partial);
+                    // a systemic defect fails everywhere: a few shrunk cases per process are enough
+                    if partial.violations.len() >= 3 {
+                        *partial.skipped.entry("stopped_after_3_violations".into()).or_insert(0) += 1;
+                        break 'all;
+                    }
                 }
             }
         }
